@@ -973,6 +973,18 @@ def shared_state(srcs):
     return found
 
 
+def interior_mutability(srcs):
+    """types with interior mutability mentioned anywhere in the non-test source: the model takes every `&self` method
+    (write_all, the getters, handle_http_request, …) to be a function of the value it is called on"""
+    pat = r"\b(?:Cell|RefCell|UnsafeCell|OnceCell|OnceLock|LazyCell|LazyLock|Mutex|RwLock|Atomic[A-Z]\w*)\b"
+    found = []
+    for name, text in srcs:
+        for ln in text.split("\n"):
+            if re.search(pat, ln):
+                found.append(f"{name}: {ln.strip()[:100]}")
+    return found
+
+
 def main():
     conn, srv, common, headers, resp, req = (read(x) for x in
                                              ("connection.rs", "server.rs", "common/mod.rs", "common/headers.rs", "response.rs", "request.rs"))
@@ -1060,6 +1072,9 @@ def main():
     shared = shared_state([("connection.rs", conn), ("server.rs", srv), ("common/mod.rs", common), ("common/headers.rs", headers),
                            ("response.rs", resp), ("request.rs", req), ("router.rs", router), ("common/ascii.rs", ascii_), ("lib.rs", librs)])
     items.append(("sharedState", "List String", "[" + ", ".join(lean_str(x) for x in shared) + "]"))
+    interior = interior_mutability([("connection.rs", conn), ("server.rs", srv), ("common/mod.rs", common), ("common/headers.rs", headers),
+                                    ("response.rs", resp), ("request.rs", req), ("router.rs", router), ("common/ascii.rs", ascii_), ("lib.rs", librs)])
+    items.append(("interiorMutability", "List String", "[" + ", ".join(lean_str(x) for x in interior) + "]"))
 
     writer, why = translate_writer(resp)
     lines = ["/-",
